@@ -12,7 +12,7 @@ RULE = ("all PIN lengths 4..12 x PAN lengths 13..19 x digit sweeps at every PIN 
         "distinct PIN/PAN/fill/key); distinct = distinct case")
 TRUSTED = ["Model/PinBlock.lean models Iso0PinBlock/Iso4PinBlock to_bytes/from_bytes (string formatting, int(...,16), XOR, "
            "to_bytes) — hand-written, tied by this correspondence; block ciphers are a parameter of the model",
-           "harness/refdes.py: from-scratch DES/3DES checked against FIPS known answers; AES taken from `cryptography`",
+           "Model/Des.lean: DES / two- and three-key Triple DES (ECB) inside the Lean model (FIPS 46-3 tables, known answers as #guards; Lemmas/Des.lean proves decrypt(encrypt x) = x); every Triple DES ciphertext of the implementation is compared with the model's AND with harness/refdes.py (an independent from-scratch Python DES); AES taken from `cryptography`",
            "freshness of the random fill is observed (call count of secrets.randbits, inequality of two blocks), not proved"]
 ASSUMPTIONS = ["D_k(E_k(x)) = x for the ECB ciphers of `cryptography` (explicit hypothesis of C13_encrypted_roundtrip)",
                "PIN and PAN are ASCII digit strings"]
@@ -95,7 +95,7 @@ def impl_eval(case):
             why = 'clear block is not ISO 9564 format 0'
         elif back != pin:
             why = f'decrypting returns PIN {back!r} ({st2})'
-        return {'obs': f'ok {clear.hex()} {st2} {common.dotted(back or "")}', 'violation': why,
+        return {'obs': f'ok {clear.hex()} {enc.hex()} {common.dotted(back or "")}' if st2 == 'ok' else st2, 'violation': why,
                 'tags': ['enc0', f'keylen:{len(key) // 2}']}
     if k == 'enc4':
         key, rnd = case['key'], case['rnd']
@@ -133,7 +133,7 @@ def impl_eval(case):
             why = 'clear block is not ISO 9564 format 4'
         elif back != pin:
             why = f'decrypting returns PIN {back!r} ({st2})'
-        return {'obs': f'ok {clear.hex()} {st2} {common.dotted(back or "")}', 'violation': why,
+        return {'obs': f'ok {clear.hex()} {enc.hex()} {common.dotted(back or "")}' if st2 == 'ok' else st2, 'violation': why,
                 'tags': ['enc4tdes', f'keylen:{len(key) // 2}']}
     if k == 'iso4same':
         # ONE object stands for one block: serialising it twice, or encrypting it, uses the same fill
@@ -159,9 +159,11 @@ def model_line(case):
         return None
     pin = common.dotted(case['pin'])
     if case['k'] == 'enc4tdes':
-        rnd = case['rnd']
-        return [f"pin.iso4\t{common.dotted(case['pin'])}\t{rnd}", f"pin.iso4from\t{spec_iso4(case['pin'], rnd).hex()}"]
-    if case['k'] in ('iso0', 'enc0'):
+        # clear block, Triple DES encryption (Model/Des.lean), decryption, PIN read back: all by the model
+        return f"pin.enc4tdes\t{pin}\t{case['rnd']}\t{case['key']}"
+    if case['k'] == 'enc0':
+        return f"pin.enc0\t{pin}\t{common.dotted(case['pan'])}\t{case['key']}"
+    if case['k'] in ('iso0',):
         pan = common.dotted(case['pan'])
         return [f'pin.iso0\t{pin}\t{pan}', f"pin.iso0from\t{spec_iso0(case['pin'], case['pan']).hex()}\t{pan}"]
     rnd = case['rnd'] if case['rnd'] is not None else 0x1122334455667788
@@ -169,6 +171,8 @@ def model_line(case):
 
 
 def model_obs(case, resp):
+    if case['k'] in ('enc0', 'enc4tdes'):
+        return resp
     a, b = resp
     if not a.startswith('ok ') or not b.startswith('ok '):
         return f'{a} / {b}'
